@@ -264,9 +264,9 @@ package solvers
 //@   assume forall i int :: 0 <= i && i < len(recordedVictimsJobs) ==> scn.podsKnown(session, recordedVictimsJobs[i])
 //@   assume forall i int, k string :: 0 <= i && i < len(recordedVictimsJobs) && k in recordedVictimsJobs[i].PodSets ==> allocated(recordedVictimsJobs[i].PodSets[k].podInfos)   // heap closedness: the pod maps of existing jobs exist before the call (else the constructor's own make(map[PodID]*PodInfo) could alias one of them)
 //@   assume nodeMapOK(session.ClusterInfo.Nodes)
-//@   assume [candidate-finding] forall k in feasibleNodes :: feasibleNodes[k] != nil
+//@   assume [feasibleNodesNonNil] forall k in feasibleNodes :: feasibleNodes[k] != nil
 //@   note assume session skeleton / pod maps of the pending job / recorded victim jobs (non-empty, tasks known to the session: NewBaseScenario.appendTasksAsVictimJob reads tasks[0] and clones the session's job of that task) / no nil NodeInfo in the cluster's node map: data invariants of the snapshot and of the solver state that solvePartialJob's caller cannot carry through `modifies *` statement operations
-//@   note assume [candidate-finding] "feasibleNodes holds no nil NodeInfo" is NOT established by the only caller: solvePartialJob stores ssn.ClusterInfo.Nodes[task.NodeName] for every recorded victim task without a presence check, so a recorded victim whose NodeName is not a key of ClusterInfo.Nodes puts a nil value into the map, which NewNodeAffinitiesFilter.initNodeMaps dereferences (ni.Node) when the pending job has a pod with a required node affinity
+//@   note assume [feasibleNodesNonNil] "feasibleNodes holds no nil NodeInfo" is NOT established locally by the only caller: solvePartialJob stores ssn.ClusterInfo.Nodes[task.NodeName] for every recorded victim task without a presence check; a nil value would be dereferenced by NewNodeAffinitiesFilter.initNodeMaps (ni.Node) when the pending job has a pod with a required node affinity. It holds by a cross-function argument the contracts do not carry: the recorded victims are the victimsTasks of a SOLVED result, every one of which went through Statement.Evict, which returns an error (so the scenario is not solved) when the task's node is not in ssn.ClusterInfo.Nodes
 //@   modifies *
 //@   loop 1
 //@     invariant 0 - 1 <= rangeindex && rangeindex < len(recordedVictimsJobs)
@@ -282,7 +282,7 @@ package solvers
 //@   props C06
 //@   requires asb != nil
 //@   assume filtersOK(asb)
-//@   note assume filtersOK: the constructor appends only non-nil filters and scenarioFilters is never reassigned
+//@   note assume filtersOK: the constructor appends only non-nil filters (now PROVED: NewPodAccumulatedScenarioBuilder ensures [filtersNonNil]) and scenarioFilters is never reassigned; kept as an assume because GetNextScenario / the solvePartialJob loop would have to carry it through their `modifies *` havocs
 //@   nopanic off
 //@   note nopanic off: no claim; the unit exists so that callers see a call with frame `modifies *` instead of the inlined body
 //@   modifies *
